@@ -3,6 +3,8 @@
    the correspondence check (st_blocks), not proved. *)
 From XcpModel Require Import Base Extents Sparse Blocks CopyLoop FileCopy.
 From XcpProofs Require Import ExtentsProofs SparseProofs BlocksProofs CopyLoopProofs FileCopyProofs.
+From XcpModel Require Import Extracted.
+From XcpProofs Require Import ExtractedOk.
 From Coq Require Import Permutation.
 
 (* parfile, sparse source: exactly the data segments are written — no byte of a
@@ -74,9 +76,15 @@ Example C11_nonvacuous :
   f_st o = StOk /\ length (f_trace o) = 2%nat /\ layout_okb 0 2097152 L = true.
 Proof. vm_compute. repeat split. Qed.
 
+(* ---- tie to the current source (translator): the model's definitions used above are
+   EQUAL to what /verif/xlate extracts from the repository on this run ---- *)
+Theorem C11_src_probably_sparse : forall blocks size, x_probably_sparse blocks size = probably_sparse blocks size.
+Proof. exact x_probably_sparse_ok. Qed.
+
 Print Assumptions C11_parfile_writes_only_data.
 Print Assumptions C11_parblock_writes_only_extents.
 Print Assumptions C11_entirely_empty_parfile.
 Print Assumptions C11_entirely_empty_parblock.
 Print Assumptions C11_overwrite_starts_empty.
 Print Assumptions C11_probably_sparse_spec.
+Print Assumptions C11_src_probably_sparse.
